@@ -106,11 +106,10 @@ Qed.
 Section IsClique.
 Variable adj : nat -> nat -> bool.
 Hypothesis adj_sym : forall u v, adj u v = adj v u.
-Hypothesis adj_irrefl : forall u, adj u u = false.
 
 Lemma edge_count_cons : forall u t,
   edge_count adj (u :: t) = length (filter (adj u) t) + edge_count adj t.
-Proof. intros u t; simpl. rewrite adj_irrefl. reflexivity. Qed.
+Proof. intros u t; simpl. reflexivity. Qed.
 
 Lemma edge_count_bound : forall l, edge_count adj l * 2 <= length l * (length l - 1).
 Proof.
@@ -159,10 +158,10 @@ Proof.
 Qed.
 End IsClique.
 
-(* 3. with a self-loop the edge count test accepts a non-clique *)
-Lemma is_clique_selfloop_refuted :
+(* 3. the OLD edge-count test (before commit eefbefe, self-loops counted) accepted a non-clique *)
+Lemma is_clique_pre_eefbefe_selfloop_refuted :
   exists adj l, (forall u v, adj u v = adj v u) /\ NoDup l /\
-                is_clique adj l = true /\ ~ clique_set adj l.
+                is_clique_pre_eefbefe adj l = true /\ ~ clique_set adj l.
 Proof.
   exists (adj_of [(0, 0)]), [0; 1]. split; [intros; apply adj_of_sym|].
   split; [repeat constructor; simpl; intuition discriminate|].
@@ -512,7 +511,6 @@ Proof. reflexivity. Qed.
 Section Grow.
 Variable adj : nat -> nat -> bool.
 Hypothesis adj_sym : forall u v, adj u v = adj v u.
-Hypothesis adj_irrefl : forall u, adj u u = false.
 Variable nodes : list nat.
 Hypothesis nodes_nodup : NoDup nodes.
 
@@ -569,7 +567,7 @@ Proof.
     intros x Hx; apply H2, (proj2 (dedup_In _ _)); exact Hx.
   - apply dedup_NoDup.
   - intros x Hx. apply (proj1 (dedup_In _ _)) in Hx. apply subset_spec in Es. apply Es; exact Hx.
-  - apply (is_clique_spec adj adj_sym adj_irrefl); [apply dedup_NoDup| exact Ec].
+  - apply (is_clique_spec adj adj_sym); [apply dedup_NoDup| exact Ec].
   - lia.
 Qed.
 End Grow.
@@ -596,7 +594,6 @@ Qed.
 Section Swap.
 Variable adj : nat -> nat -> bool.
 Hypothesis adj_sym : forall u v, adj u v = adj v u.
-Hypothesis adj_irrefl : forall u, adj u u = false.
 Variable nodes : list nat.
 Hypothesis nodes_nodup : NoDup nodes.
 
@@ -614,7 +611,7 @@ Proof.
   assert (Hincl : incl cl nodes).
   { intros x Hx. apply (proj1 (dedup_In _ _)) in Hx. apply subset_spec in Es. apply Es; exact Hx. }
   assert (Hcl : clique_set adj cl)
-    by (apply (is_clique_spec adj adj_sym adj_irrefl); assumption).
+    by (apply (is_clique_spec adj adj_sym); assumption).
   clearbody cl.
   destruct (c_1 adj nodes cl) as [|p0 rest] eqn:E1.
   - injection H as H; subst r. repeat split.
@@ -810,7 +807,6 @@ Proof. reflexivity. Qed.
 Section Shrink.
 Variable adj : nat -> nat -> bool.
 Hypothesis adj_sym : forall u v, adj u v = adj v u.
-Hypothesis adj_irrefl : forall u, adj u u = false.
 Variable nodes : list nat.
 
 Lemma shrink_loop_sound : forall fuel fixed s tbl draws r,
@@ -822,7 +818,7 @@ Proof.
   rewrite shrink_loop_S in H. destruct (is_clique adj tbl) eqn:Ec.
   - injection H as H; subst r. repeat split.
     + apply (clique_set_ext adj tbl); [intro; symmetry; apply sort_asc_In|].
-      apply (is_clique_spec adj adj_sym adj_irrefl); assumption.
+      apply (is_clique_spec adj adj_sym); assumption.
     + intros x Hx; apply (proj1 (sort_asc_In _ _)); exact Hx.
     + apply sort_asc_NoDup; exact ND.
   - assert (Hne : tbl <> []) by (intro; subst tbl; vm_compute in Ec; discriminate).
